@@ -14,6 +14,8 @@ import (
 	"net"
 	"net/http"
 	"net/http/httptest"
+	"os"
+	"runtime"
 	"runtime/debug"
 	"strings"
 	"sync"
@@ -58,6 +60,50 @@ func (h *safeHandler) firstPanic() string {
 		return ""
 	}
 	return h.panics[0]
+}
+
+// wedgeWatch guards a test whose cases run in synctest bubbles: a goroutine of the code under test that blocks
+// on a lock (not a channel or timer) stops virtual time, so an in-bubble timeout can never fire and the case would
+// hang for ever. The watchdog runs OUTSIDE the bubbles in real time; every case ticks it. No progress for two
+// minutes means some request or shutdown step never returned: the process is wedged, which is what C15 forbids.
+func wedgeWatch(name string) (tick func(what string), stop func()) {
+	var mu sync.Mutex
+	seq, lastWhat := 0, "start"
+	quit := make(chan struct{})
+	go func() {
+		t := time.NewTicker(2 * time.Second)
+		defer t.Stop()
+		seen, since := -1, time.Now() // real time: this goroutine lives outside the bubbles
+		for {
+			select {
+			case <-quit:
+				return
+			case <-t.C:
+				mu.Lock()
+				cur, what := seq, lastWhat
+				mu.Unlock()
+				if cur != seen {
+					seen, since = cur, time.Now()
+					continue
+				}
+				if idle := time.Since(since); idle > 2*time.Minute {
+					buf := make([]byte, 1<<20)
+					n := runtime.Stack(buf, true)
+					fmt.Printf("--- FAIL: %s\n    WEDGE: no progress for %s after: %s\n    a request, reply or shutdown step never returned (a goroutine holds a lock for ever); goroutines:\n%s\n", name, idle.Round(time.Second), what, buf[:n])
+					os.Exit(1)
+				}
+			}
+		}
+	}()
+	return func(what string) {
+			// called from inside bubbles (fake clock): only count
+			mu.Lock()
+			seq++
+			lastWhat = what
+			mu.Unlock()
+		}, func() {
+			close(quit)
+		}
 }
 
 // ---------------------------------------------------------------------------
@@ -253,9 +299,15 @@ func (rc *rawConn) close() {
 	<-rc.done
 }
 
+var c15Tick = func(string) {}
+
 func c15StructuredCase(rt *rapid.T, rec *vt.Rec) {
 	s, sh := c15Session(rt)
-	defer s.close()
+	defer func() {
+		c15Tick("closing every connection and the store after the requests above")
+		s.close()
+		c15Tick("closed")
+	}()
 	// a registered host with a live connection and a registered client, so that hostile requests meet real state
 	hostConn := s.openConnWith(0, sh)
 	if err := s.connect(0, hostConn, true, "geth", ""); err != nil {
@@ -282,8 +334,11 @@ func c15StructuredCase(rt *rapid.T, rec *vt.Rec) {
 		if pj != nil {
 			body += `,"params":` + string(pj)
 		}
-		body += "}"
+		// a request that ALSO carries reply members is still a request
+		hybrid := rapid.SampledFrom([]string{"", "", "", "", `,"result":null`, `,"error":null`, `,"result":1`, `,"error":{"code":1,"message":"x"}`}).Draw(rt, "hybrid")
+		body += hybrid + "}"
 		before := s.digest()
+		c15Tick("sending " + body)
 		reply, err := rc.roundTrip([]byte(body), 30*time.Second)
 		if p := sh.firstPanic(); p != "" {
 			rt.Fatalf("request made the pool panic:\n%.600s\n%s", body, p)
@@ -323,6 +378,11 @@ func c15StructuredCase(rt *rapid.T, rec *vt.Rec) {
 	if err := cliConn.c.agentSide.Call(context.Background(), &pong, "vipnode_ping"); err != nil || pong != "pong" {
 		rt.Fatalf("another connection no longer answers vipnode_ping: %v", err)
 	}
+	// ... and requests that need more than the RPC layer are still served on other connections
+	c15Tick("peer request of the honest client after: " + strings.Join(sample, " ; "))
+	if _, err := s.peer(1, 1, ""); err != nil && classifyErr(err).Kind != "nohosts" {
+		rt.Fatalf("after the hostile requests the honest client's peer request fails: %v", err)
+	}
 	rec.Case(fmt.Sprintf("structured|%v", sample), reached > 0, []string{"structured"}, func() interface{} {
 		return map[string]interface{}{"target": "structured requests to the production registration", "requests": sample}
 	})
@@ -339,6 +399,10 @@ func compactJSON(s string) string {
 func TestC15Structured(t *testing.T) {
 	rec := vt.For("C15")
 	rec.Rule("T1 structured: messages of valid JSON-RPC shape sent over a connection to the production registration (pool with a live host and a client, payment, status): every documented method with correctly TYPED but hostile values (signatures of every length and alphabet, node ids / wallets of every length, extreme nonces and counts, hostile node URIs and peer descriptions, sometimes correctly signed), plus arity/type damage and unknown methods, ids of every JSON type; oracle: no panic in any goroutine (panic-recording handler), exactly one reply per request within 30 virtual seconds carrying the request's id and an error or a result, the sending and another connection still answer vipnode_ping, a request refused by verification changes nothing; non-trivial = the message reached a registered method; distinct by request texts")
+	tick, stop := wedgeWatch("TestC15Structured")
+	defer stop()
+	c15Tick = tick
+	defer func() { c15Tick = func(string) {} }()
 	rapid.Check(t, func(rt *rapid.T) {
 		rapid.SyncTest(rt, func(rt *rapid.T) { c15StructuredCase(rt, rec) })
 	})
